@@ -18,23 +18,27 @@ VERUS = {
     # ASSUMED contracts of mul::multiply / sqr::sqr (Karatsuba / Toom-3 out of reach), mul_large_dword's double-word
     # path over the ASSUMED contract of mul::mul_dword_in_place (chunks_exact_mut); primitive::shrink_dword is proved.
     'int_mul_ops': {'file': 'int_mul_ops.rs', 'w32': True},
-    # pow::repr::{pow_dword_base, pow_large_base} (square-and-multiply loops: invariant val(res) == base^(2*(exp>>(p+1))),
-    # length/capacity bounds) and TypedReprRef::pow (dispatch): ret.v() == base^exp (spec ipow).  pow_word_base is seen
-    # through an ASSUMED contract (not verified).
+    # pow::repr::{pow_word_base, pow_dword_base, pow_large_base} (left-to-right square-and-multiply loops: invariant
+    # val(res) == base^(2*(exp >> (p+1))), length/capacity bounds; all shortcuts of pow_word_base) and TypedReprRef::pow
+    # (dispatch): ret.v() == base^exp (spec ipow).  Assumed: sqr::sqr, mul::mul_dword_in_place, math::max_exp_in_word
+    # (SIG-only copies), bit_len, Word::pow, set_bit on zero, usize::div_rem (lib/pow_stubs.rs).
     'int_pow': {'file': 'int_pow.rs', 'w32': True},
     # macro arms impl_ibig_add / impl_ibig_sub / impl_ibig_mul (rule E3, 4 owned|borrowed combinations each) over the
     # hoisted magnitude dispatches: result == (+-mag0) op (+-mag1) as signed integers; Sign * Sign (base/src/sign.rs)
     'int_ops_sign': {'file': 'int_ops_sign.rs', 'w32': True},
+    # UBig::pow / IBig::pow: factor-2 removal ((v >> t)^exp << (exp*t)) and sign parity; ret == self^exp.  Resource
+    # precondition pow_fits (result fits the allocation limit): beyond it `exp * shift` wraps in release builds (finding).
+    'int_pow_api': {'file': 'int_pow_api.rs', 'w32': True},
 }
 
 PROP_UNITS = {
-    'C01': {'verus': ['int_add_ops', 'int_add_ops_signed', 'int_add_ops_panic', 'int_mul_ops', 'int_pow', 'int_ops_sign'],
-            'undecided': ['pow::repr::pow_word_base: contract assumed by int_pow (Word::pow, max_exp_in_word, set_bit shortcuts)',
-                          'UBig::pow / IBig::pow wrappers (trailing-zero shift + sign) not under contract',
+    'C01': {'verus': ['int_add_ops', 'int_add_ops_signed', 'int_add_ops_panic', 'int_mul_ops', 'int_pow', 'int_ops_sign', 'int_pow_api'],
+            'undecided': ['UBig/IBig sqr, cubic wrappers and the primitive-operand operator forms are not under contract',
+                          'math::max_exp_in_word, bit_len, Word::pow, set_bit, trailing_zeros, >>, << : contracts assumed by int_pow / int_pow_api',
                           'mul::multiply, sqr::sqr, mul::mul_dword_in_place, cmp::cmp_in_place: contracts assumed by '
                           'int_mul_ops (bodies not verified); scratch-memory sizing (memory_requirement_*) not verified',
                           'Buffer/Repr method contracts of lib/repr_stubs.rs are assumed (raw-pointer code)',
                           'resource preconditions: operand lengths below Buffer::MAX_CAPACITY (allocation limit)']},
-    'C16': {'verus': ['int_add_ops', 'int_add_ops_signed', 'int_add_ops_panic', 'int_mul_ops', 'int_pow', 'int_ops_sign']},
-    'C19': {'verus': ['int_add_ops', 'int_add_ops_signed', 'int_add_ops_panic', 'int_mul_ops', 'int_pow', 'int_ops_sign']},
+    'C16': {'verus': ['int_add_ops', 'int_add_ops_signed', 'int_add_ops_panic', 'int_mul_ops', 'int_pow', 'int_ops_sign', 'int_pow_api']},
+    'C19': {'verus': ['int_add_ops', 'int_add_ops_signed', 'int_add_ops_panic', 'int_mul_ops', 'int_pow', 'int_ops_sign', 'int_pow_api']},
 }
